@@ -21,6 +21,7 @@ PY = "/venv/bin/python"
 
 
 SEED = "0"
+CHECKS = None
 
 
 def run_one(sid, tier):
@@ -33,6 +34,8 @@ def run_one(sid, tier):
         for c, v in h["checks"].items():
             last[c] = v
     checks = [c for c, v in last.items() if v.get("caught")] or [meta["property"]]
+    if CHECKS:
+        checks = list(CHECKS)          # explicit list (a neighbouring check is expected to catch this change)
     work = tempfile.mkdtemp(prefix="vf-regr-", dir="/dev/shm")
     out = {}
     try:
@@ -76,9 +79,11 @@ def main():
     ap.add_argument("--tier", default="quick")
     ap.add_argument("--jobs", type=int, default=1)
     ap.add_argument("--seed", default="0")
+    ap.add_argument("--checks", help="run these checks instead of the ones that caught the change before")
     a = ap.parse_args()
-    global SEED
+    global SEED, CHECKS
     SEED = a.seed
+    CHECKS = a.checks.split(",") if a.checks else None
     sids = sorted(os.listdir(os.path.join(HERE, "seeded")))
     if a.only:
         keep = a.only.split(",")
